@@ -167,6 +167,24 @@ func runC13(c writeCase) (bool, []string, error) {
 	return nt, labels, nil
 }
 
+func addLocalFields(ts *spec.TypeSpec, depth int) {
+	if ts.Elem != nil {
+		addLocalFields(ts.Elem, depth)
+	}
+	if ts.K != "struct" {
+		return
+	}
+	for i := range ts.Fields {
+		addLocalFields(&ts.Fields[i].T, depth+1)
+	}
+	local := spec.FieldSpec{Go: "Local", JSON: fmt.Sprintf("zz_local_%d", depth), T: spec.T([]string{"int64", "string", "int16"}[depth%3])}
+	if depth%2 == 0 {
+		ts.Fields = append(ts.Fields, local)
+	} else {
+		ts.Fields = append([]spec.FieldSpec{local}, ts.Fields...)
+	}
+}
+
 func drawWriteCase(t *rapid.T) writeCase {
 	d := 3
 	if thorough() {
@@ -177,6 +195,11 @@ func drawWriteCase(t *rapid.T) writeCase {
 	c.Schema = gen.WireRecord(t, o, 0)
 	tgt, _ := gen.Target(t, c.Schema, o, false)
 	c.Target = tgt
+	if gen.Uniform(t, "localFields", 3) == 0 {
+		// the application's own fields next to the schema's, at every level (the struct
+		// covers the schema; it need not consist of it)
+		addLocalFields(&c.Target, 0)
+	}
 	c.GoType = c.Target.GoString()
 	n := gen.UniformRange(t, "nvalues", 1, 4)
 	for i := 0; i < n; i++ {
